@@ -1886,8 +1886,9 @@ def status_path(body, fam, value, via, goals, avoid=frozenset()):
                     continue
                 p = ba.resolve_ref(al)
                 if p is not None and place_key(body, p)[0] in roots:
-                    r0 = place_key(body, p)[0]
-                    for c_ in [c_ for c_ in env if c_[0] == r0 and c_[1]]:
+                    r0, pr0 = place_key(body, p)
+                    # a borrow of `root.f` can change cells below `root.f` only (through a `deref` anything below that root)
+                    for c_ in [c_ for c_ in env if c_[0] == r0 and c_[1] and (c_[1][:len(pr0)] == pr0 or pr0[:len(c_[1])] == c_[1])]:
                         env.pop(c_)
         return env
 
